@@ -53,6 +53,12 @@ HostileSafe(sp) ==
   /\ LET L == sp[Len(sp)] IN
      \/ L.op \in {"list", "last"} /\ L.val = "ident"
      \/ L.op = "agg" /\ L.agg \in {"First", "Count", "Sample"}
+\* odd values are only routed by themselves or a constant, collected, counted and sampled
+OddSafe(sp) ==
+  /\ \A l \in 1..Len(sp) : sp[l].op = "dict" => sp[l].key \in {"ident", "const"}
+  /\ LET L == sp[Len(sp)] IN
+     \/ L.op \in {"list", "last"} /\ L.val = "ident"
+     \/ L.op = "agg" /\ L.agg \in {"First", "Count", "Sample"}
 NumSafe(sp) == \A l \in 1..Len(sp) : sp[l].op = "dict" => sp[l].key \notin {"len", "first"}
 \* a nested Limit sits under a key level, above a leaf that never answers SKIP, not above Sample
 NestedOk(nk, nlim, leaf) ==
@@ -67,6 +73,10 @@ IdSafe(sp) ==
 ItemsFor(sp) ==
   (CASE ItemKind = "int" -> {VInt(i) : i \in (0 - NegItems)..ItemMax}
      [] ItemKind = "str" -> {VStr(w) : w \in Words}
+     \* falsy-but-meaningful values, equal-but-distinct numbers (1 / 1.0 / True, 0 / False), keys with
+     \* equal hashes (-1 / -2) and an unhashable value ([7])
+     [] ItemKind = "odd" -> {VInt(0), VBool(FALSE), VInt(1), VFrac(1, 1), VBool(TRUE), VStr(""), VNone,
+                             VTup(<<>>), VInt(-1), VInt(-2), DList(<<VInt(7)>>)}
      [] ItemKind = "hostile" -> {[k |-> kk, i |-> i] : kk \in {"any", "strict"}, i \in 0..1}
      [] ItemKind = "tup" -> {VTup(<<VInt(1), VStr("b")>>), VTup(<<VInt(1), VStr("a")>>),
                              VTup(<<VInt(0), VStr("ba")>>), VTup(<<VInt(2), VStr("a")>>)})
@@ -78,7 +88,8 @@ Init ==
        /\ NestedOk(nk, nlim, leaf)
        /\ spec = MkSpec(lim, kfs, nlim, leaf)
        /\ (WithIds => IdSafe(spec))
-       /\ (CASE ItemKind = "int" -> NumSafe(spec) [] ItemKind = "hostile" -> HostileSafe(spec) [] OTHER -> OrdSafe(spec))
+       /\ (CASE ItemKind = "int" -> NumSafe(spec) [] ItemKind = "hostile" -> HostileSafe(spec)
+                [] ItemKind = "odd" -> OddSafe(spec) [] OTHER -> OrdSafe(spec))
   /\ heap = <<>> /\ evals = <<>> /\ stack = <<>> /\ hist = <<>>
 
 RECURSIVE TotalFed(_)
